@@ -4,8 +4,8 @@ import math
 from ..core import f2b, b2f
 from .. import samples as S, sample_checks as SC, kin, exact as X, oracle
 
-MODULE = "Momtrop.Props.C11"
-THEOREMS = ["Momtrop.C11.jacobian_def", "Momtrop.C11.jacobian_rescaled_gauge", "Momtrop.C11.gauge_invariant"]
+MODULE = "Momtrop.Props.C11H"
+THEOREMS = ["Momtrop.C11.jacobian_def", "Momtrop.C11.jacobian_rescaled_gauge", "Momtrop.C11.gauge_invariant", "Momtrop.C11.lMat_smul", "Momtrop.C11.det_lMat_smul", "Momtrop.C11.uVec_smul", "Momtrop.C11.Vabs_smul", "Momtrop.C11.lMat_smul_inv"]
 RULE = ("accepted connected graphs with 1..3 (quick) / 1..4 (thorough) loops, D=1..6 (odd and even), integer and non-integer weights, "
         "uniform/corner points; the jacobian is recomputed (i) from the returned u, v and the stored normalisation, (ii) gauge-invariantly "
         "from the exact Symanzik polynomials at the logged UNRESCALED parameters, the exact maximal monomials and the oracle's own "
